@@ -8,6 +8,9 @@
 //   adjrt      AdjInputData::write_xml (precision 17) -> DataParser (adj-input-data) -> structural
 //              comparison with the original; prints the SAX events of the written text (ev ...),
 //              and the AdjInputData the real reader produced (rd ...)
+//   homog            (after xml) a fresh Adj (gso) on a bit-exact copy of the model's adj_input_data: prints the
+//              homogenised system A_dot, b_dot of Adj::init_least_squares (`hom …` lines) — the cluster
+//              cofactors through CovMat::cholDec + Adj::choldec + Adj::forwardSubstitution
 //   adjfile <path>   reads an <adj-input-data> file (gama-g3 --project-equations) and adjusts it
 //              with class Adj, all four algorithms: prints defect and x
 //   gpt <role> xyz|blh a b c geoid dB dL sN sE sU iN iE iU corX corY corZ
@@ -392,6 +395,68 @@ static void roundtrip16(const AdjInputData* d)
   for (auto o : o2) delete o;
 }
 
+
+// read-only access to the homogenised system of class Adj (friend under -DGAMA_VERIF, adj.h)
+struct GamaVerifProbe {
+  static const GNU_gama::Mat<>& A_dot(const GNU_gama::Adj& a) { return a.A_dot; }
+  static const GNU_gama::Vec<>& b_dot(const GNU_gama::Adj& a) { return a.b_dot; }
+  static bool has_solver(const GNU_gama::Adj& a) { return a.least_squares != nullptr; }
+};
+
+static const char* mv_kind(int e) {
+  switch (e) {
+    case GNU_gama::Exception::BadRank: return "BadRank";
+    case GNU_gama::Exception::BadIndex: return "BadIndex";
+    case GNU_gama::Exception::Singular: return "Singular";
+    case GNU_gama::Exception::BadRegularization: return "BadRegularization";
+    case GNU_gama::Exception::NoConvergence: return "NoConvergence";
+    case GNU_gama::Exception::ZeroDivision: return "ZeroDivision";
+    case GNU_gama::Exception::NonPositiveDefinite: return "NonPositiveDefinite";
+    case GNU_gama::Exception::NotImplemented: return "NotImplemented";
+    case GNU_gama::Exception::StreamError: return "StreamError";
+  }
+  return "Other";
+}
+
+// the homogenised system class Adj builds from the model's own adjustment input (full solvers)
+static void run_homog(g3::Model* m)
+{
+  std::string text = dump_text(m->adj_input_data, 17);      // bit-exact copy (`res adjrt same`)
+  std::list<DataObject::Base*> objects;
+  std::string err;
+  AdjInputData* copy = read_adj(text, objects, err);
+  if (!copy || !err.empty()) { std::cout << "hom throw copy-failed\n"; for (auto o : objects) delete o; return; }
+  // the DataObject keeps owning the copy: ~Adj does not delete its data
+  try {
+    Adj adj;
+    adj.set_algorithm(Adj::gso);
+    adj.set(copy);
+    bool solver_threw = false;
+    try { adj.x(); }
+    catch (const Exception::matvec& e) {
+      // homogenisation precedes the solver: an exception with A_dot incomplete is the block Cholesky's
+      if (int(GamaVerifProbe::b_dot(adj).dim()) != copy->mat()->rows() || !GamaVerifProbe::has_solver(adj)) { std::cout << "hom throw " << mv_kind(e.error()) << "\n"; throw 0; }
+      solver_threw = true;
+    }
+    (void)solver_threw;
+    const Mat<>& Ad = GamaVerifProbe::A_dot(adj); const Vec<>& bd = GamaVerifProbe::b_dot(adj);
+    const int M = Ad.rows(), N = Ad.cols();
+    std::cout << "hom dim " << M << " " << N << "\n";
+    for (int i = 1; i <= M; i++) {
+      std::cout << "hom row " << i;
+      for (int j = 1; j <= N; j++) std::cout << " " << hex(Ad(i, j));
+      std::cout << "\n";
+    }
+    std::cout << "hom rhs";
+    for (int i = 1; i <= M; i++) std::cout << " " << hex(bd(i));
+    std::cout << "\n";
+  }
+  catch (int) {}
+  catch (const Exception::matvec& e) { std::cout << "hom throw " << mv_kind(e.error()) << "\n"; }
+  catch (...) { std::cout << "hom throw unknown\n"; }
+  for (auto o : objects) delete o;
+}
+
 // `guard`: do not enter update_adjustment when it would read adj->x()(0) (a point whose free height U has no
 // column: finding G8, notes/proposed/C19-height-index-zero.diff) — the sanitizer would abort the harness; the check
 // re-runs these cases one by one with `adjust!` (no guard), which shows the defect or, on a repaired tree, the result
@@ -537,6 +602,7 @@ int main()
       for (auto o : objects) delete o;
       roundtrip16(model->adj_input_data);
     }
+    else if (op == "homog" && model) run_homog(model.get());
     else if (op == "adjust" && model) run_adjust(model.get(), arg, true);
     else if (op == "adjust!" && model) run_adjust(model.get(), arg, false);
     else if (op == "adjfile") {
